@@ -61,6 +61,13 @@ def run(ctx):
                     ctx.report("C08-chokepoint", "%s/caller/%s" % (target.rsplit("::", 1)[-1], f.name),
                                "%s is called from %s, bypassing apply_procedure's checks: %s" % (target, f.name, why), where_of(f, t))
                     continue
+                if target == asp.name and site_behind_arity_checker(fb, f, b, ap.name):
+                    # a second way into the code that applies a user procedure, behind a call of a function that builds the
+                    # wrong-count error: the count is checked where the call is made — whether rightly is not decided by this rule
+                    ctx.undecided("C08-chokepoint", "%s/caller/%s" % (target.rsplit("::", 1)[-1], f.name), "%s is called from %s behind a "
+                                  "check of the argument count made there (a function that builds ArgumentMissMatch dominates the call): "
+                                  "not decided by the who-may-call rule" % (target, f.name), where_of(f, t))
+                    continue
                 ctx.report("C08-chokepoint", "%s/caller/%s" % (target.rsplit("::", 1)[-1], f.name),
                            "%s is called from %s, bypassing apply_procedure's checks" % (target, f.name), where_of(f, t))
     # indirect calls of builtin bodies: fn(ArgVec)->Result<Value> / dyn Fn(ArgVec, Rc<Env>)
@@ -512,6 +519,18 @@ def _straight(f, b, n=12):
 
 CELL_WRITES = ("Cell::set", "Cell::replace", "Cell::take", "Cell::swap", "Cell::update", "RefCell::borrow_mut", "RefCell::replace", "RefCell::replace_with",
                "RefCell::swap", "RefCell::take", "Cell<T>::set", "Cell<T>::replace", "RefCell<T>::borrow_mut", "RefCell<T>::replace")
+
+
+def site_behind_arity_checker(fb, f, b, ap_name=None):
+    """is the call at block b of f dominated by a call, in f, of a function of the crate that builds the ArgumentMissMatch error (the
+    argument count checked where the call is made)?  Whether that check is the right one is not decided here."""
+    checkers = {g.name for g in fb.all("lib") if g.name != ap_name and not g.derived and "::tests::" not in g.name
+                and any(v == "ArgumentMissMatch" for _, _, _, _, v in mir.aggregates(g))}
+    if f.name in checkers:
+        return True
+    dom = f.dominators()
+    chk = [bb for bb, tt in f.calls() if callee(tt) in checkers]
+    return any(bb in dom.get(b, ()) and bb != b for bb in chk)
 
 
 def arity_checked_by_callers(fb, ap):
